@@ -451,4 +451,8 @@ Definition ex_V (from : addr) : hq := ex_q (ex_name 118 [0; 0; 5; 2; 0; 1]) from
 Definition ex_L (from : addr) (uid seed : N) : hq := ex_q (ex_name 108 (uid :: login_stub ex_pw seed ++ [0; 1])) from 8.
 Definition ex_step (chk : bool) := Server.step login_stub zc_frame unz_frame (ex_c chk).
 Definition ex_flags (st : sstate) (i : nat) := (u_active (getu st i), u_auth (getu st i), u_seed (getu st i), u_last (getu st i)).
+(* a digest of the table that keeps the examples small: access-control fields, last_pkt, pending
+   query id and outgoing packet length of every slot *)
+Definition ex_sig (st : sstate) := map (fun u => (sec u, u_last u, h_id (u_q u), p_len (u_out u))) st.
+Definition ex_res (r : sstate * list out) := (ex_sig (fst r), snd r).
 
